@@ -52,7 +52,11 @@ Theorem C20_buffer_le_1 : forall n sched, 1 <= n -> length (chanq (run (faithful
 Proof. exact Proofs.Attempt.f_buffer_le_1. Qed.
 Print Assumptions C20_buffer_le_1.
 
-(* "yields non-decreasing timestamps" (the clock is non-decreasing: assumption on the ticker, written into LTick) *)
+(* "yields non-decreasing timestamps": the values are the inline time.Now() followed by the ticker's own timestamps in the
+   order the ticker produced them.  Assumption (written into LTick): the ticker's timestamps are non-decreasing and not
+   earlier than the time of the call.  Go 1.23's time.Ticker computes a tick's value as Now()-delta from two clock readings,
+   so for periods below that jitter (microseconds) a raw Ticker already yields decreasing pairs (measured 27 of 20000 at
+   1us, none at >= 200us): the harness compares timestamps only for periods >= 1ms. *)
 Theorem C20_timestamps_nondecreasing : forall n sched, 1 <= n ->
   let s := run (faithful n) init sched in
   (forall a b, a <= b -> b < length (sent s) -> nth a (sent s) 0 <= nth b (sent s) 0) /\
